@@ -3,7 +3,7 @@ import ast
 
 from .index import Inconclusive, norm
 from .interp import Interp, Policy, show, show_lit, walk_effects, K, NONE, subterms, mentions
-from .callgraph import CallGraph, Escape, _own_nodes, local_names
+from .callgraph import CallGraph, Escape, _own_nodes, local_names, norm_locals
 
 ALGEBRA_ENTRIES = ['_signatures:merge', '_signatures:embed', '_signatures:mask', '_signatures:_mask', '_signatures:forwards']
 PUBLIC_OPS = ['_signatures:merge', '_signatures:embed', '_signatures:mask', '_signatures:forwards',
@@ -22,12 +22,13 @@ REVIEWED_VIA = {
 
 # explicit non-ValueError raises that may escape the public algebra (DESIGN C15.R2): reviewed, one reason each
 REVIEWED_RAISES = {
-    '_signatures:merge|raise:signatures': 'precondition n >= 1 (assert)',
-    '_signatures:embed|raise:signatures': 'precondition n >= 1 (assert)',
-    '_signatures:sort_params|raise:isinstance(sig, UpgradedSignature)': 'post-upgrade type assertion, cannot fail',
-    "_signatures:sort_params|raise:AssertionError('Unknown param kind {0}'.format(param.kind))": 'inspect has exactly five parameter kinds',
-    '_signatures:UpgradedSignature.replace|raise:isinstance(ret, type(self))': 'inspect.Signature.replace constructs type(self)',
-    '_signatures:UpgradedParameter.replace|raise:isinstance(ret, type(self))': 'inspect.Parameter.replace constructs type(self)',
+    # (local variables and parameters are written `$`: the keys survive a renaming)
+    '_signatures:merge|raise:$': 'precondition n >= 1 (assert)',
+    '_signatures:embed|raise:$': 'precondition n >= 1 (assert)',
+    '_signatures:sort_params|raise:isinstance($, UpgradedSignature)': 'post-upgrade type assertion, cannot fail',
+    "_signatures:sort_params|raise:AssertionError('Unknown param kind {0}'.format($.kind))": 'inspect has exactly five parameter kinds',
+    '_signatures:UpgradedSignature.replace|raise:isinstance($, type(self))': 'inspect.Signature.replace constructs type(self)',
+    '_signatures:UpgradedParameter.replace|raise:isinstance($, type(self))': 'inspect.Parameter.replace constructs type(self)',
     '_signatures:UpgradedAnnotation.source_value|raise:NotImplementedError': 'abstract method',
 }
 
@@ -187,7 +188,7 @@ def rule_containment(check, rule):
     bad = set((x.origin) for x in esc)
     for f2, node, cls in sites:
         n += 1
-        origin = '%s|raise:%s' % (f2.key, norm(node.exc)[:80])
+        origin = '%s|raise:%s' % (f2.key, norm_locals(f2.node, node.exc)[:80])
         key = 'contained|%s' % origin
         if origin in bad:
             continue    # reported by the fallback rule
